@@ -48,10 +48,11 @@ pub uninterp spec fn pool_equal(a: Object, b: Object) -> bool;
 
 /// ghost log of the recursive code-generation calls made so far (which sub-tree, in which order)
 pub enum LogWhat { E(Expr), B(Seq<Stmt>), S(Stmt), Stops(Seq<usize>) }
-/// `depth` / `contexts`: block-scope depth and number of function contexts of the symbol table when the call was made
-pub ghost struct LogEntry { pub what: LogWhat, pub start: int, pub end: int, pub depth: int, pub contexts: int }
-pub open spec fn entry_e(e: Expr, pre: Compiler, post: Compiler) -> LogEntry { LogEntry { what: LogWhat::E(e), start: pre.instructions@.len() as int, end: post.instructions@.len() as int, depth: sym_depth(pre.symbols), contexts: sym_contexts(pre.symbols) } }
-pub open spec fn entry_s(st: Stmt, pre: Compiler, post: Compiler) -> LogEntry { LogEntry { what: LogWhat::S(st), start: pre.instructions@.len() as int, end: post.instructions@.len() as int, depth: sym_depth(pre.symbols), contexts: sym_contexts(pre.symbols) } }
+/// `depth` / `contexts` / `names`: block-scope depth, number of function contexts and number of names declared in the
+/// current context when the call was made
+pub ghost struct LogEntry { pub what: LogWhat, pub start: int, pub end: int, pub depth: int, pub contexts: int, pub names: int }
+pub open spec fn entry_e(e: Expr, pre: Compiler, post: Compiler) -> LogEntry { LogEntry { what: LogWhat::E(e), start: pre.instructions@.len() as int, end: post.instructions@.len() as int, depth: sym_depth(pre.symbols), contexts: sym_contexts(pre.symbols), names: sym_count(pre.symbols) } }
+pub open spec fn entry_s(st: Stmt, pre: Compiler, post: Compiler) -> LogEntry { LogEntry { what: LogWhat::S(st), start: pre.instructions@.len() as int, end: post.instructions@.len() as int, depth: sym_depth(pre.symbols), contexts: sym_contexts(pre.symbols), names: sym_count(pre.symbols) } }
 
 // the real fields + GHOST field `log` (not in the real struct, never constructed by extracted code): see LogEntry
 //@TYPE file=compiler.rs name=Compiler extra="pub log: Ghost<Seq<LogEntry>>, pub height: Ghost<H>, pub loop_h: Ghost<Seq<H>>, pub locals_bound: Ghost<int>,"
